@@ -23,6 +23,7 @@ import json
 import math
 import pathlib
 import random
+import re
 import time
 from typing import Any, Dict, Iterator, List, Optional, Sequence, Tuple
 
@@ -36,6 +37,7 @@ JSONIZATION = "aas_core_codegen/python/lib/_generate_jsonization.py"
 XMLIZATION = "aas_core_codegen/python/lib/_generate_xmlization.py"
 #: ``iterparse`` reads 16 KiB at a time; ``Model/SdkXml.lean`` is stated for documents read in one chunk
 XML_ONE_CHUNK = 15000
+XML_CHUNK = 16 * 1024
 
 # =========================================================================== Gen extractor
 
@@ -632,18 +634,54 @@ def mistyped_instance(m: Model, x: Any, path: str = "") -> Optional[Tuple[str, s
     return None
 
 
+def _cr_normalised(d: Any) -> Any:
+    if isinstance(d, tuple):
+        if d[:1] == ("str",):
+            return ("str", d[1].replace("\r\n", "\n").replace("\r", "\n"))
+        return tuple(_cr_normalised(x) for x in d)
+    return d
+
+
+def strictly_jsonable(x: Any) -> bool:
+    """Only what ``json.loads`` can produce: dict with str keys, list, str, int, float, bool, None (no bytes, no tuples)."""
+    if x is None or type(x) in (bool, int, float, str):
+        return True
+    if type(x) is list:
+        return all(strictly_jsonable(y) for y in x)
+    if type(x) is dict:
+        return all(type(k) is str and strictly_jsonable(v) for k, v in x.items())
+    return False
+
+
 def judge_roundtrip(m: Model, wire: str, through: str) -> List[Tuple[str, str]]:
     """JSON and XML round trip of the instance given by its Val wire, read back through class ``through``."""
+    return judge_roundtrip_inst(m, m.build(wire), through)
+
+
+def judge_roundtrip_inst(m: Model, inst: Any, through: str) -> List[Tuple[str, str]]:
+    import xml.etree.ElementTree as ET
+
     bad: List[Tuple[str, str]] = []
-    inst = m.build(wire)
     want = dump(m, inst)
     # JSON: through real JSON text
+    doc = None
     try:
-        text = json.dumps(m.sdk.to_jsonable(inst))
-        doc = json.loads(text)
+        jsonable = m.sdk.to_jsonable(inst)
     except BaseException as e:  # noqa: B902
-        bad.append((f"C10:json-write:{crash_name(e)}", f"to_jsonable/json.dumps raised {crash_name(e)}: {e}"))
-        doc = None
+        if isinstance(e, KeyboardInterrupt):
+            raise
+        bad.append((f"C10:json-write:{crash_name(e)}", f"to_jsonable raised {crash_name(e)}: {e}"))
+        jsonable = None
+    if jsonable is not None:
+        try:
+            text = json.dumps(jsonable)
+            doc = json.loads(text)
+        except BaseException as e:  # noqa: B902
+            if isinstance(e, KeyboardInterrupt):
+                raise
+            bad.append((f"C10:json-write:{crash_name(e)}", f"json.dumps of the result of to_jsonable raised {crash_name(e)}: {e}"))
+        if doc is not None and not strictly_jsonable(jsonable):
+            bad.append(("C10:json-write:not-plain-json", "to_jsonable returned something other than dict/list/str/int/float/bool/None"))
     if doc is not None:
         try:
             back = m.sdk.from_jsonable(through)(doc)
@@ -658,24 +696,40 @@ def judge_roundtrip(m: Model, wire: str, through: str) -> List[Tuple[str, str]]:
             else:
                 bad.append(("C10:json-roundtrip:rejected", f"{through}_from_jsonable rejects the SDK's own document: {cause} at {e.path}"))
         except BaseException as e:  # noqa: B902
+            if isinstance(e, KeyboardInterrupt):
+                raise
             bad.append((f"C10:json-roundtrip:{crash_name(e)}", f"{through}_from_jsonable raised {crash_name(e)}: {e}"))
     # XML
     if xml_representable(want):
         try:
             xml = m.sdk.to_xml_str(inst)
         except BaseException as e:  # noqa: B902
+            if isinstance(e, KeyboardInterrupt):
+                raise
             bad.append((f"C10:xml-write:{crash_name(e)}", f"xmlization.to_str raised {crash_name(e)}: {e}"))
             xml = None
         if xml is not None:
+            try:
+                ET.fromstring(xml)
+            except BaseException as e:  # noqa: B902
+                if isinstance(e, KeyboardInterrupt):
+                    raise
+                bad.append(("C10:xml-write:not-well-formed", f"xmlization.to_str wrote a text which an XML parser refuses: {crash_name(e)}: {e}"))
             kind, back = m.from_xml(through, xml)
             if kind == "ok":
-                d = first_diff(want, dump(m, back))
+                got = dump(m, back)
+                d = first_diff(want, got)
                 if d:
-                    cr = "cr" if "\\r" in d else "diff"
-                    bad.append((f"C10:xml-roundtrip:{cr}", f"XML round trip through {through} changes the instance at {d}"))
+                    # ``cr``: the only loss is the end-of-line normalisation of carriage returns (the defect repaired by 59ee2953)
+                    cr = "cr" if _cr_normalised(want) == _cr_normalised(got) else "diff"
+                    where = "" if len(xml) < XML_CHUNK else f" (document of {len(xml)} characters, iterparse chunk = {XML_CHUNK})"
+                    bad.append((f"C10:xml-roundtrip:{cr}", f"XML round trip through {through} changes the instance at {d}{where}"))
             elif kind == "err":
                 what = "empty-bytes" if "Expected an element with text" in back else "rejected"
-                bad.append((f"C10:xml-roundtrip:{what}", f"{through}_from_str rejects the SDK's own document: {back}"))
+                where = ""
+                if len(xml) >= XML_CHUNK:
+                    what, where = "rejected-beyond-one-chunk", f" (document of {len(xml)} characters, iterparse chunk = {XML_CHUNK})"
+                bad.append((f"C10:xml-roundtrip:{what}", f"{through}_from_str rejects the SDK's own document: {back}{where}"))
             else:
                 bad.append((f"C10:xml-roundtrip:{kind}", f"{through}_from_str raised {kind}: {back}"))
     return bad
@@ -686,11 +740,14 @@ def xml_char_ok(c: str) -> bool:
     return o in (0x9, 0xA, 0xD) or 0x20 <= o <= 0xD7FF or 0xE000 <= o <= 0xFFFD or 0x10000 <= o <= 0x10FFFF
 
 
+_NOT_XML_CHAR = re.compile("[^\t\n\r\x20-\ud7ff\ue000-\ufffd\U00010000-\U0010ffff]")
+
+
 def xml_representable(d: Any) -> bool:
-    """All strings of the dumped instance consist of XML 1.0 `Char`s."""
+    """All strings of the dumped instance consist of XML 1.0 `Char`s (same set as ``xml_char_ok``)."""
     if isinstance(d, tuple):
         if d[:1] == ("str",):
-            return all(xml_char_ok(c) for c in d[1])
+            return _NOT_XML_CHAR.search(d[1]) is None
         return all(xml_representable(x) for x in d[1:])
     return True
 
@@ -862,13 +919,21 @@ def header() -> str:
 
 def fixed_sources() -> List[Tuple[str, str]]:
     h = header()
-    return [("fixed:shapes", h + FIXED_MODEL), ("fixed:no-model-type", h + NO_MODEL_TYPE_MODEL)]
+    from harness import c10_shapes
+
+    return [("fixed:shapes", h + FIXED_MODEL), ("fixed:no-model-type", h + NO_MODEL_TYPE_MODEL)] + [
+        (sm.label, h + sm.body) for sm in c10_shapes.shape_models()
+    ]
 
 
 JSON_MENU: List[Any] = [None, True, False, 0, 1, -7, 2**70, 1.5, 1.0, "", "x", "é", "QUJD", "QQ=", "A", "QQ=x=QQ==", "====", [], {}, [1], {"x": 1}]
 
 
-def enumerated_json_mutants(doc: Any, cap: int) -> List[Tuple[Any, str]]:
+#: one value of every JSON kind: the "mistyped" menu for the positions nested below a list item
+JSON_KIND_MENU: List[Any] = [None, True, 1, 1.5, "x", [], {}]
+
+
+def enumerated_json_mutants(doc: Any, cap: int, menu: Optional[List[Any]] = None) -> List[Tuple[Any, str]]:
     """Seed-independent systematic single edits: every node × a fixed menu, every key dropped, extra keys, modelType edits."""
     import copy
 
@@ -876,7 +941,7 @@ def enumerated_json_mutants(doc: Any, cap: int) -> List[Tuple[Any, str]]:
 
     out: List[Tuple[Any, str]] = []
     for path, node in list(_json_paths(doc)):
-        for i, repl in enumerate(JSON_MENU):
+        for i, repl in enumerate(JSON_MENU if menu is None else menu):
             if type(repl) is type(node) and repl == node:
                 continue
             out.append((_json_set(copy.deepcopy(doc), path, copy.deepcopy(repl)), f"menu{i}@{'/'.join(map(str, path))}"))
@@ -929,7 +994,10 @@ def enumerated_json_mutants(doc: Any, cap: int) -> List[Tuple[Any, str]]:
 XML_TEXT_MENU = ["", " ", "abc", "1", "0", "true", "TRUE", "1.5", " 1 ", "1e400", "-INF", "NaN", "nan", "0x10", "1_0", "\u0661", "QUJD", "QUJ", "é", "====", "\n"]
 
 
-def enumerated_xml_mutants(text: str, cap: int) -> List[Tuple[str, str]]:
+XML_KIND_MENU = ["", "abc", "1", "true", "1.5", "QUJD", "é"]
+
+
+def enumerated_xml_mutants(text: str, cap: int, menu: Optional[List[str]] = None) -> List[Tuple[str, str]]:
     """Seed-independent systematic single edits of an XML document: every element × (text menu, attribute, tail text,
     renamed, other/no namespace, dropped, duplicated, extra child, children reversed)."""
     import copy
@@ -955,7 +1023,7 @@ def enumerated_xml_mutants(text: str, cap: int) -> List[Tuple[str, str]]:
         return tag.rsplit("}", 1)[-1]
 
     for i in range(n):
-        for k, t in enumerate(XML_TEXT_MENU):
+        for k, t in enumerate(XML_TEXT_MENU if menu is None else menu):
             variant(i, lambda el, p, t=t: setattr(el, "text", t), f"text{k}")
         variant(i, lambda el, p: el.set("unexpected", "1"), "attribute")
         variant(i, lambda el, p: setattr(el, "tail", "tail text"), "tail")
@@ -1080,7 +1148,8 @@ def run_xml_text_stream(ctx: Ctx) -> None:
 
     m = Model(header() + "class Holder(DBC):\n    text: str\n\n    def __init__(self, text: str) -> None:\n        self.text = text\n", "xmltext")
     if not m.ok:
-        raise RuntimeError(f"the xml text holder model is not accepted: {m.error}")
+        report_not_generated(ctx, "fixed:xmltext-holder", m.source, m.error)
+        return
     try:
         reqs: List[str] = []
         wants: List[str] = []
@@ -1135,6 +1204,8 @@ class Budget:
         self.xml_mutants = ctx.n(35, 60)
         self.enum_cap = ctx.n(700, 4000)
         self.xml_enum_per_instance = ctx.n(450, 2000)
+        #: per representative instance of the value-shape matrix (large enough to keep EVERY systematic single edit)
+        self.shape_cap = 5000
 
 
 def model_sources(ctx: Ctx, budget: Budget) -> Iterator[Tuple[str, str]]:
@@ -1167,6 +1238,7 @@ def model_sources(ctx: Ctx, budget: Budget) -> Iterator[Tuple[str, str]]:
 
 def check_model(ctx: Ctx, m: Model, budget: Budget, with_model: bool, enumerated: bool) -> None:
     """All streams for one generated SDK."""
+    from harness import c10_shapes
     from harness import mm as MMP
 
     stream_prefix = "enumerated" if enumerated else "random"
@@ -1181,9 +1253,27 @@ def check_model(ctx: Ctx, m: Model, budget: Budget, with_model: bool, enumerated
 
     if with_model:
         ask(f"wf {m.mm_wire}", "wf", {"mm": m.label}, "")
-    instances: List[Tuple[str, str]] = []  # (declared class, val wire)
+    #: (declared class, val wire, mutant policy: "default" | "rep" (every node × full menus) | "rep-light" (× one value per
+    #: kind) | "none" (round trips and valid-document correspondence only))
+    instances: List[Tuple[str, str, str]] = []
     names = [c.name for c in m.classes]
     per_class = max(1, budget.instances // max(1, len(names)))
+    shape_model = next((sm for sm in c10_shapes.shape_models() if sm.label == m.label), None)
+    if shape_model is not None:
+        # the value-shape matrix: enumerated instances only (the random instances of the other models add nothing here)
+        try:
+            for declared, label, inst, is_rep in c10_shapes.model_instances(c10_shapes.Maker(m.sdk, m.arg_name), shape_model):
+                # full menus at the four positions of every holder; one value per JSON kind / text class below a list item
+                # and for the chains (same readers as the constrained primitives they derive from)
+                light = declared == "Nest" or m.label == "fixed:shapes-chains"
+                policy = "none" if not is_rep else ("rep-light" if light else "rep")
+                instances.append((declared, m.val_wire(inst), policy))
+                ctx.hit("shape-instance:" + label.split(":")[-1].rstrip("0123456789"))
+        except BaseException as e:  # noqa: B902
+            if isinstance(e, KeyboardInterrupt):
+                raise
+            report_not_built(ctx, m, e)
+        per_class = 0
     for cname in names:
         for _ in range(per_class):
             try:
@@ -1193,15 +1283,29 @@ def check_model(ctx: Ctx, m: Model, budget: Budget, with_model: bool, enumerated
                 break
             if built.instance is None:
                 break
-            instances.append((cname, m.val_wire(built.instance)))
+            instances.append((cname, m.val_wire(built.instance), "default"))
     if m.label == "fixed:shapes":
-        holder = m.sdk.types.PlainURLHolder(
-            some_url="x" * 17000 + "\r&<>]]>" + "é" * 5000, numbers=list(range(2500)), ratios=[0.5] * 700, flags=[True, False] * 300,
-            blobs=[bytes([i % 256] * (i % 7)) for i in range(400)], names=["n%d\r\n" % i for i in range(1500)])
-        instances.append(("Plain_URL_holder", m.val_wire(holder)))
-        ctx.hit("instance:larger-than-one-iterparse-chunk")
+        try:
+            holder = c10_shapes.Maker(m.sdk, m.arg_name).new(
+                "Plain_URL_holder",
+                some_URL="x" * 17000 + "\r&<>]]>" + "é" * 5000, numbers=list(range(2500)), ratios=[0.5] * 700, flags=[True, False] * 300,
+                blobs=[bytes([i % 256] * (i % 7)) for i in range(400)], names=["n%d\r\n" % i for i in range(1500)])
+            instances.append(("Plain_URL_holder", m.val_wire(holder), "default"))
+            ctx.hit("instance:larger-than-one-iterparse-chunk")
+        except BaseException as e:  # noqa: B902
+            if isinstance(e, KeyboardInterrupt):
+                raise
+            report_not_built(ctx, m, e)
+    if m.label == "fixed:shapes-ours":
+        try:
+            check_chunks(ctx, m)
+        except BaseException as e:  # noqa: B902
+            if isinstance(e, KeyboardInterrupt):
+                raise
+            report_not_built(ctx, m, e)
+    n_default = sum(1 for i in instances if i[2] == "default")
     seen = set()
-    for declared, wire in instances:
+    for declared, wire, policy in instances:
         if wire in seen:
             continue
         seen.add(wire)
@@ -1210,16 +1314,23 @@ def check_model(ctx: Ctx, m: Model, budget: Budget, with_model: bool, enumerated
         base_input = {"mm": m.source, "val": wire}
         ctx.count((m.label, wire), nontrivial=wire.count(",") > 0, stream=f"{stream_prefix}-instances")
         ctx.hit("instance:" + ("nested" if wire.count(",C") else "flat"))
-        doc = m.sdk.to_jsonable(inst)
-        dw = json_wire(doc)
+        try:
+            doc = m.sdk.to_jsonable(inst)
+        except BaseException as e:  # noqa: B902  (reported by judge_roundtrip)
+            if isinstance(e, KeyboardInterrupt):
+                raise
+            doc = None
+        dw = json_wire(doc) if doc is not None else None
         throughs = m.ancestors_of(meta)
         # --- oracle: round trips through own class and every ancestor
         for through in throughs:
             for sig, what in judge_roundtrip(m, wire, through):
                 ctx.fail(dict(base_input, through=through, kind="roundtrip"), what, sig)
-        if with_model and dw is not None:
+        if with_model:
             ask(f"conforms {m.mm_wire} {enc_text(meta)} {wire}", "conforms", base_input, "1")
-            ask(f"tojson {m.mm_wire} {wire}", f"{stream_prefix}-tojson", base_input, dw)
+            # a result of to_jsonable that is not plain JSON (raw bytes, an exception) disagrees with every model answer
+            ask(f"tojson {m.mm_wire} {wire}", f"{stream_prefix}-tojson", base_input, dw if dw is not None else "impl:not-plain-json")
+        if with_model and dw is not None:
             for through in throughs:
                 ask(f"fromjson {m.mm_wire} {enc_text(through)} {dw}", f"{stream_prefix}-fromjson-valid",
                     dict(base_input, through=through), m.from_jsonable(through, json.loads(json.dumps(doc))))
@@ -1227,12 +1338,18 @@ def check_model(ctx: Ctx, m: Model, budget: Budget, with_model: bool, enumerated
         through = declared if declared in throughs else meta
         mutants: List[Tuple[Any, str]] = []
         big = wire.count(",") > 3000
-        if big:
+        if doc is None or dw is None or policy == "none":
+            pass
+        elif policy == "rep":
+            mutants += enumerated_json_mutants(doc, budget.shape_cap)
+        elif policy == "rep-light":
+            mutants += enumerated_json_mutants(doc, budget.shape_cap, JSON_KIND_MENU)
+        elif big:
             mutants += [(dict(doc, numbers=doc["numbers"] + [True]), "big:bool-item"), (dict(doc, blobs=doc["blobs"] + ["é"]), "big:non-ascii-base64")]
         elif enumerated:
-            mutants += enumerated_json_mutants(doc, budget.enum_cap // max(1, len(instances)))
+            mutants += enumerated_json_mutants(doc, budget.enum_cap // max(1, n_default))
         else:
-            for _ in range(max(1, budget.json_mutants // max(1, len(instances)))):
+            for _ in range(max(1, budget.json_mutants // max(1, n_default))):
                 mutants.append(MMP.mutate_jsonable(doc, rng))
             dup = MMP.duplicate_key_json_text(doc, rng)
             if dup is not None:
@@ -1268,13 +1385,18 @@ def check_model(ctx: Ctx, m: Model, budget: Budget, with_model: bool, enumerated
                             dict(base_input, through=thr), xml_outcome(m, thr, xml))
             if xml is not None:
                 texts: List[Tuple[str, str]] = []
-                if big:
+                if policy == "none":
+                    pass
+                elif policy in ("rep", "rep-light"):
+                    texts += [(xml[:cut], "truncate") for cut in sorted({1, len(xml) // 2, len(xml) - 1})]
+                    texts += enumerated_xml_mutants(xml, budget.shape_cap, None if policy == "rep" else XML_KIND_MENU)
+                elif big:
                     texts += [(xml[: len(xml) // 2], "big:truncate"), (xml.replace("<v>0.5</v>", "<v>x</v>", 1), "big:wrong-text")]
                 elif enumerated:
                     texts += [(xml[:cut], "truncate") for cut in sorted({0, 1, len(xml) // 3, len(xml) // 2, len(xml) - 1})]
                     texts += [("", "empty"), ("<", "garbage"), ("not xml", "garbage"), ("<a><b></a></b>", "garbage"), (xml + "<x/>", "trailing")]
                     texts += enumerated_xml_mutants(xml, budget.xml_enum_per_instance)
-                for _ in range(0 if big else max(1, budget.xml_mutants // max(1, len(instances)))):
+                for _ in range(0 if big or policy != "default" else max(1, budget.xml_mutants // max(1, n_default))):
                     texts.append(MMP.mutate_xml(xml, rng))
                 for mtext, label in texts:
                     ctx.count((m.label, through, mtext), stream=f"{stream_prefix}-xml-mutants")
@@ -1289,7 +1411,13 @@ def check_model(ctx: Ctx, m: Model, budget: Budget, with_model: bool, enumerated
                             ask(f"fromxml {m.mm_wire} {nsw} {enc_text(through)} {ew[1]} {ew[0]}", f"{stream_prefix}-fromxml-mutants",
                                 xinp, xml_outcome(m, through, mtext))
     if with_model and reqs:
+        t_driver = time.time()
         answers = ctx.model(reqs)
+        tm = ctx.extra_cov.setdefault("driver_s", {})
+        key = m.label if enumerated else "random-models"
+        tm[key] = round(tm.get(key, 0.0) + time.time() - t_driver, 1)
+        tm[key + ":requests"] = tm.get(key + ":requests", 0) + len(reqs)
+        tm[key + ":MB"] = round(tm.get(key + ":MB", 0.0) + sum(len(r) for r in reqs) / 1e6, 1)
         for (stream, inp, impl, fn), ans in zip(wants, answers):
             ctx.traces_validated += 1
             if fn == "wf":
@@ -1312,6 +1440,55 @@ def check_model(ctx: Ctx, m: Model, budget: Budget, with_model: bool, enumerated
                 ctx.disagree(stream, light, impl[:400], ans[:400])
                 # let the oracle decide on the disagreeing input with full data (search)
                 ctx.extra_cov.setdefault("_disagreeing_inputs", []).append(inp)
+
+
+def check_chunks(ctx: Ctx, m: Model) -> None:
+    """Documents larger than one ``iterparse`` chunk (oracle only: ``Model/SdkXml.lean`` is the one-chunk semantics).
+
+    For every kind of text element (str / bytes / enumeration literal, plain, empty, escaped, as a list item, nested in a
+    class, below a discriminator element; also int / float / bool) and every chunk boundary (16, 32, 64 KiB) the padding
+    is swept so that the boundary falls at EVERY character offset of the element (start tag, text, end tag): the round
+    trip must give the instance back.  At the offset inside the start tag the element text is replaced by the mistyped menu
+    and the document is cut at the boundary: only ``DeserializationException`` or a type-conforming instance."""
+    from harness import c10_shapes
+
+    through = "Chunk_holder"
+    n = 0
+    mk = c10_shapes.Maker(m.sdk, m.arg_name)
+    for label, inst, boundary in c10_shapes.chunk_instances(mk, m.sdk.to_xml_str):
+        n += 1
+        ctx.count((m.label, "chunk", label), stream="enumerated-xml-chunk-roundtrips")
+        ctx.hit("xml-chunk:" + label.split("@")[0])
+        bad = judge_roundtrip_inst(m, inst, through)
+        if bad:
+            base_input = {"mm": m.source, "val": m.val_wire(inst), "through": through, "kind": "roundtrip", "label": "chunk:" + label}
+            for sig, what in bad:
+                ctx.fail(base_input, what, sig)
+        if boundary and label.endswith("+1"):
+            try:
+                xml = m.sdk.to_xml_str(inst)
+            except BaseException as e:  # noqa: B902  (reported by judge_roundtrip_inst)
+                if isinstance(e, KeyboardInterrupt):
+                    raise
+                continue
+            target = [t for t in c10_shapes.chunk_targets(mk) if t[0] == label.split("@")[0]][0]
+            pos, span = c10_shapes.locate(xml, target[2], target[3])
+            element = xml[pos:pos + span]
+            gt, lt = element.find(">"), element.rfind("</")
+            texts: List[Tuple[str, str]] = [(xml[:boundary], "chunk:cut-at-boundary"), (xml[:boundary + 1], "chunk:cut-after-boundary")]
+            if 0 <= gt < lt:
+                for k, t in enumerate(XML_KIND_MENU + [" ", "dark green", "-INF", "x" * 20000]):
+                    texts.append((xml[:pos + gt + 1] + t + xml[pos + lt:], f"chunk:text{k}"))
+                texts.append((xml[:pos + gt + 1] + "<unexpectedElement/>" + xml[pos + lt:], "chunk:child"))
+                texts.append((xml[:pos + 1 + len(target[2])] + ' unexpected="1"' + xml[pos + 1 + len(target[2]):], "chunk:attribute"))
+            texts.append((xml[:pos] + xml[pos + span:], "chunk:dropped"))
+            texts.append((xml[:pos] + element + element + xml[pos + span:], "chunk:duplicated"))
+            for mtext, mlabel in texts:
+                ctx.count((m.label, "chunk", label, mlabel), stream="enumerated-xml-chunk-mutants")
+                ctx.hit(f"xml-chunk-mutant:{m.from_xml(through, mtext)[0].split(':')[0]}")
+                for sig, what in judge_xml_doc(m, through, mtext):
+                    ctx.fail({"mm": m.source, "through": through, "xml": mtext, "kind": "xml-doc", "label": f"{mlabel}@{label}"}, what, sig)
+    ctx.extra_cov["xml_chunk_documents"] = n
 
 
 def _abstract_mm_for_instances(m: Model) -> Any:
@@ -1344,23 +1521,92 @@ def _abstract_mm_for_instances(m: Model) -> Any:
 # =========================================================================== entry points
 
 
-def replay_one(ctx: Ctx, inp: Dict[str, Any], with_model: bool) -> Dict[str, Any]:
-    m = Model(inp["mm"], "replay")
+def judge_generation(error: Optional[str]) -> List[Tuple[str, str]]:
+    """An accepted meta-model for which no importable SDK comes out: nothing can be round-tripped at all."""
+    if error is None or error.startswith("front end:"):
+        return []  # the property quantifies over ACCEPTED meta-models
+    stage = error.split(":", 1)[0]
+    return [(f"C10:sdk-not-generated:{stage}", f"the front end accepts the meta-model but no Python SDK comes out: {error[:600]}")]
+
+
+def report_not_generated(ctx: Ctx, label: str, source: str, error: Optional[str]) -> None:
+    ctx.hit("model:fixed-not-generated")
+    ctx.note(f"fixed meta-model {label} is not accepted / not generated any more: {(error or '')[:300]}")
+    for sig, what in judge_generation(error):
+        ctx.fail({"mm": source, "kind": "generate", "label": label}, what, sig)
+
+
+def build_matrix(m: Model) -> None:
+    """Builds every enumerated instance of the fixed meta-model ``m.label`` through the generated constructors."""
+    from harness import c10_shapes
+
+    mk = c10_shapes.Maker(m.sdk, m.arg_name)
+    for sm in c10_shapes.shape_models():
+        if sm.label == m.label:
+            for _, _, inst, _ in c10_shapes.model_instances(mk, sm):
+                m.val_wire(inst)
+            if sm.label == "fixed:shapes-ours":
+                for _ in c10_shapes.chunk_instances(mk, m.sdk.to_xml_str, [c10_shapes.CHUNK]):
+                    pass
+
+
+def judge_build(m: Model) -> List[Tuple[str, str]]:
+    try:
+        build_matrix(m)
+    except BaseException as e:  # noqa: B902
+        if isinstance(e, KeyboardInterrupt):
+            raise
+        return [(f"C10:sdk-instance-not-built:{crash_name(e)}",
+                 f"an instance with type-conforming values cannot be built through the generated SDK of {m.label} "
+                 f"(constructor / naming / to_str of the probe): {crash_name(e)}: {str(e)[:300]}")]
+    return []
+
+
+def report_not_built(ctx: Ctx, m: Model, e: BaseException) -> None:
+    """The enumerated instances of a fixed meta-model are built from type-conforming values through the names the
+    tree's own ``python/naming.py`` gives: a failure is a change of the code under test, never a harness error."""
+    ctx.hit("model:fixed-instance-not-built")
+    ctx.fail({"mm": m.source, "kind": "build", "label": m.label},
+             f"an instance with type-conforming values cannot be built through the generated SDK of {m.label}: {crash_name(e)}: {str(e)[:300]}",
+             f"C10:sdk-instance-not-built:{crash_name(e)}")
+
+
+def replay_one(ctx: Ctx, inp: Dict[str, Any], with_model: bool, cache: Optional[Dict[str, Model]] = None) -> Dict[str, Any]:
+    """``cache`` (corpus stage): generated SDKs by meta-model text, closed by the caller."""
+    m = cache.get(inp["mm"]) if cache is not None and inp.get("kind") not in ("build", "generate") else None
+    if m is None:
+        m = Model(inp["mm"], inp.get("label", "replay") if inp.get("kind") == "build" else "replay")
+        if cache is not None and m.ok and inp.get("kind") not in ("build", "generate"):
+            cache[inp["mm"]] = m
+    if inp.get("kind") == "generate":
+        if m.ok:
+            m.close()
+        return {"oracle": judge_generation(m.error), "error": m.error}
     if not m.ok:
         return {"error": m.error}
     try:
         res: Dict[str, Any] = {}
         kind = inp.get("kind")
-        if kind == "roundtrip":
+        if kind == "build":
+            res["oracle"] = judge_build(m)
+        elif kind == "roundtrip":
             res["oracle"] = judge_roundtrip(m, inp["val"], inp["through"])
             inst = m.build(inp["val"])
-            doc = m.sdk.to_jsonable(inst)
-            res["impl"] = m.from_jsonable(inp["through"], json.loads(json.dumps(doc)))
-            if with_model:
-                dw = json_wire(doc)
-                res["model"] = ctx.model([f"fromjson {m.mm_wire} {enc_text(inp['through'])} {dw}"])[0]
-                res["model_tojson_agrees"] = ctx.model([f"tojson {m.mm_wire} {inp['val']}"])[0] == dw
-                res["wf"] = ctx.model([f"wf {m.mm_wire}"])[0]
+            try:
+                doc = m.sdk.to_jsonable(inst)
+                plain = json.loads(json.dumps(doc))
+            except BaseException as e:  # noqa: B902  (a failure of the writer: reported by the oracle above)
+                if isinstance(e, KeyboardInterrupt):
+                    raise
+                res["impl"] = "to_jsonable/json.dumps: " + crash_name(e)
+                return res
+            res["impl"] = m.from_jsonable(inp["through"], plain)
+            dw = json_wire(doc)
+            if with_model and dw is not None:
+                answers = ctx.model([f"fromjson {m.mm_wire} {enc_text(inp['through'])} {dw}", f"tojson {m.mm_wire} {inp['val']}", f"wf {m.mm_wire}"])
+                res["model"] = answers[0]
+                res["model_tojson_agrees"] = answers[1] == dw
+                res["wf"] = answers[2]
         elif kind == "json-doc":
             res["oracle"] = judge_json_doc(m, inp["through"], inp["doc"])
             res["impl"] = m.from_jsonable(inp["through"], inp["doc"])
@@ -1374,23 +1620,33 @@ def replay_one(ctx: Ctx, inp: Dict[str, Any], with_model: bool) -> Dict[str, Any
             res["error"] = f"unknown kind {kind}"
         return res
     finally:
-        m.close()
+        if cache is None or cache.get(inp["mm"]) is not m:
+            m.close()
 
 
 def _run(ctx: Ctx, with_model: bool) -> None:
     budget = Budget(ctx)
     # corpus first (incl. the witnesses of fixed defects and of the known finding)
-    for c in corpus(ID):
-        inp = c.get("input", c)
-        ctx.count(json.dumps(inp, sort_keys=True, default=repr)[:2000], stream="corpus")
-        res = replay_one(ctx, inp, with_model)
-        for sig, what in res.get("oracle", []):
-            ctx.fail(inp, what, sig)
-        if with_model and "model" in res and res["model"] != res.get("impl"):
-            ctx.disagree("corpus", {k: v for k, v in inp.items() if k != "mm"}, res.get("impl"), res["model"])
+    t_corpus = time.time()
+    cache: Dict[str, Model] = {}
+    try:
+        for c in corpus(ID):
+            inp = c.get("input", c)
+            ctx.count(json.dumps(inp, sort_keys=True, default=repr)[:2000], stream="corpus")
+            res = replay_one(ctx, inp, with_model, cache)
+            for sig, what in res.get("oracle", []):
+                ctx.fail(inp, what, sig)
+            if with_model and "model" in res and res["model"] != res.get("impl"):
+                ctx.disagree("corpus", {k: v for k, v in inp.items() if k != "mm"}, res.get("impl"), res["model"])
+    finally:
+        for cm in cache.values():
+            cm.close()
+    timing: Dict[str, float] = {"corpus": round(time.time() - t_corpus, 1)}
+    t1 = time.time()
     if with_model:
         run_small_streams(ctx)
         run_xml_text_stream(ctx)
+    timing["small-streams"] = round(time.time() - t1, 1)
     t_gen = 0.0
     n_models = 0
     for label, source in model_sources(ctx, budget):
@@ -1400,14 +1656,20 @@ def _run(ctx: Ctx, with_model: bool) -> None:
         if not m.ok:
             ctx.hit("model:rejected-or-generator-error")
             if label.startswith("fixed"):
-                raise RuntimeError(f"the fixed model {label} is not accepted: {m.error}")
+                # never a harness error: the fixed meta-models are accepted and generated on the pinned tree, so this is a
+                # change of the code under test
+                report_not_generated(ctx, label, source, m.error)
             continue
         n_models += 1
         ctx.hit("model:accepted")
+        t1 = time.time()
         try:
             check_model(ctx, m, budget, with_model, enumerated=label.startswith("fixed"))
         finally:
             m.close()
+        key = label if label.startswith("fixed") else "random-models"
+        timing[key] = round(timing.get(key, 0.0) + time.time() - t1, 1)
+    ctx.extra_cov["timing_s"] = timing
     ctx.extra_cov["models"] = n_models
     ctx.extra_cov["sdk_generation_s"] = round(t_gen, 1)
     ctx.extra_cov.pop("_disagreeing_inputs", None)
